@@ -1,4 +1,5 @@
 import RtcVerif.Model.C16
+import RtcVerif.Proofs.InterpLemmas
 import Mathlib.Data.Rat.Floor
 import Mathlib.Data.List.Induction
 import Mathlib.Algebra.Order.Field.Rat
@@ -165,5 +166,101 @@ theorem minList_le (l : List Rat) (x : Rat) (hx : x ∈ l) : minList l ≤ x := 
       rcases List.mem_cons.1 hx with rfl | h
       · exact min_le_left _ _
       · exact le_trans (min_le_right _ _) (ih h)
+
+/-! ### history interpolation with NaN entries -/
+
+theorem numK_cons (k : Rat × Rat) (ks : Knots) : numK (k :: ks) = (k.1, Res.num k.2) :: numK ks := rfl
+
+theorem interpNaN_step (mode : Nat) (a : Rat) (fa : Res) (b : Rat) (fb : Res) (rest : RKnots) (t : Rat)
+    (h : b ≤ t) (hab : a < b) :
+    interpNaN mode ((a, fa) :: (b, fb) :: rest) t = interpNaN mode ((b, fb) :: rest) t := by
+  have h1 : ¬ t < a := not_lt.2 (le_trans (le_of_lt hab) h)
+  have h2 : t ≠ a := ne_of_gt (lt_of_lt_of_le hab h)
+  have h3 : ¬ t < b := not_lt.2 h
+  rw [interpNaN]
+  simp only [h1, h2, h3, if_false]
+
+/-- on a segment `a ≤ t < b` between consecutive knots -/
+theorem interpNaN_seg (mode : Nat) (pre post : Knots) (a fa b fb t : Rat)
+    (hs : Sorted (pre ++ (a, fa) :: (b, fb) :: post)) (hat : a ≤ t) (htb : t < b) :
+    interpNaN mode (numK (pre ++ (a, fa) :: (b, fb) :: post)) t =
+      if t = a then .num fa else segVal mode a b t (.num fa) (.num fb) := by
+  induction pre with
+  | nil =>
+    simp only [List.nil_append, numK_cons]
+    rw [interpNaN]
+    simp only [not_lt.2 hat, if_false, htb, if_true]
+  | cons p pre ih =>
+    obtain ⟨tp, fp⟩ := p
+    have hs' := Sorted.tail hs
+    cases pre with
+    | nil =>
+      have hpa : tp < a := hs.1
+      simp only [List.cons_append, List.nil_append, numK_cons] at ih ⊢
+      rw [interpNaN_step mode tp _ a _ _ t hat hpa]
+      exact ih hs'
+    | cons q pre =>
+      obtain ⟨tq, fq⟩ := q
+      have hpq : tp < tq := hs.1
+      have hqa : tq < a := Sorted.append_lt hs' (tq, fq) (by simp)
+      simp only [List.cons_append, numK_cons] at ih ⊢
+      rw [interpNaN_step mode tp _ tq _ _ t (le_trans (le_of_lt hqa) hat) hpq]
+      exact ih hs'
+
+/-- at and beyond the last knot -/
+theorem interpNaN_last (mode : Nat) (pre : Knots) (a fa t : Rat) (hs : Sorted (pre ++ [(a, fa)]))
+    (hat : a ≤ t) :
+    interpNaN mode (numK (pre ++ [(a, fa)])) t = if t = a then .num fa else .nan := by
+  induction pre with
+  | nil => simp [numK, interpNaN]
+  | cons p pre ih =>
+    obtain ⟨tp, fp⟩ := p
+    have hs' := Sorted.tail hs
+    cases pre with
+    | nil =>
+      have hpa : tp < a := hs.1
+      simp only [List.cons_append, List.nil_append, numK_cons] at ih ⊢
+      rw [interpNaN_step mode tp _ a _ _ t hat hpa]
+      exact ih hs'
+    | cons q pre =>
+      obtain ⟨tq, fq⟩ := q
+      have hpq : tp < tq := hs.1
+      have hqa : tq < a := Sorted.append_lt hs' (tq, fq) (by simp)
+      simp only [List.cons_append, numK_cons] at ih ⊢
+      rw [interpNaN_step mode tp _ tq _ _ t (le_trans (le_of_lt hqa) hat) hpq]
+      exact ih hs'
+
+theorem interpNaN_before (mode : Nat) (k : Rat × Rat) (ks : Knots) (t : Rat) (h : t < k.1) :
+    interpNaN mode (numK (k :: ks)) t = .nan := by
+  cases ks with
+  | nil => simp [numK, interpNaN, ne_of_lt h]
+  | cons b ks =>
+    simp only [numK_cons]
+    rw [interpNaN]
+    simp [h]
+
+
+theorem position (ks : Knots) (hne : ks ≠ []) (t : Rat) :
+    t < firstTime ks ∨
+    (∃ pre a fa b fb post, ks = pre ++ (a, fa) :: (b, fb) :: post ∧ a ≤ t ∧ t < b) ∨
+    (∃ pre a fa, ks = pre ++ [(a, fa)] ∧ a ≤ t) := by
+  induction ks with
+  | nil => exact absurd rfl hne
+  | cons k ks ih =>
+    obtain ⟨tk, fk⟩ := k
+    by_cases h : t < tk
+    · left; simpa [firstTime] using h
+    · right
+      cases ks with
+      | nil => right; exact ⟨[], tk, fk, rfl, not_lt.1 h⟩
+      | cons k' rest =>
+        obtain ⟨tk', fk'⟩ := k'
+        by_cases h' : t < tk'
+        · left; exact ⟨[], tk, fk, tk', fk', rest, rfl, not_lt.1 h, h'⟩
+        · rcases ih (by simp) with h1 | ⟨pre, a, fa, b, fb, post, e, h1, h2⟩ | ⟨pre, a, fa, e, h1⟩
+          · exact absurd (by simpa [firstTime] using h1) h'
+          · left; exact ⟨(tk, fk) :: pre, a, fa, b, fb, post, by rw [e]; rfl, h1, h2⟩
+          · right; exact ⟨(tk, fk) :: pre, a, fa, by rw [e]; rfl, h1⟩
+
 
 end RtcVerif.C16
